@@ -26,4 +26,7 @@ func init() {
 	register("C02", rulesC02,
 		"Static check of the retry executor. (1) The retry closure is summarised by path-sensitive abstract evaluation with the loop unrolled to a second and third attempt; a further attempt must be licensed, in order, by PostExecute of the previous result with Done=false, RecordResult=nil, an interruptible wait and InitializeRetry=nil, and every return must be the handled result, the attempt's own result after exceeded retries, or the cancel result of the test just taken. (2) OnFailure is evaluated as a decision table over the predicate abstraction of its conditions (integer comparisons in linear normal form, so off-by-one is decided for every maxRetries at once) and compared with the specification: counter +1, exceeded ⇔ (maxRetries≠-1 ∧ failed+1>maxRetries) ∨ (maxDuration≠0 ∧ elapsed>maxDuration), Done ⇔ abort ∨ exceeded ∨ ¬allowsRetries, ExceededError{last result,last error} iff exceeded ∧ ¬ReturnLastFailure ∧ ¬abort. (3) Ownership: the budget fields are written only by the executor's own methods, ToExecutor returns a fresh self-bound executor, and configuration fields are stored only by builder methods.",
 		"wall-clock meaning of the max duration; interleavings of executions (C14); the inner policies' behaviour")
+	register("C12", rulesC12,
+		"Static check of the classification logic. BaseFailurePolicy.IsFailure is evaluated as a decision table over {no conditions, some condition matches, err≠nil, errorsChecked} and compared with the documented rule; every condition registrar (HandleErrors/HandleErrorTypes/HandleResult/HandleIf and the abort/cancel counterparts) is evaluated with its loop unrolled, the closures it registered are then evaluated in the registrar's final abstract state (so each closure must compare against the argument it was created for, and HandleResult must ignore outcomes carrying an error), errorsChecked is set exactly by the error-handling registrars, AppliesToAny is true iff some predicate applied in order to (result, err) returned true, errorAs tests the error's own type first, follows Unwrap() error and searches every element of Unwrap() []error, the three failure-handling executors and the breaker's standalone RecordResult/RecordError classify through the policy's own BaseFailurePolicy, and every builder method forwards its arguments unchanged.",
+		"errors.Is, reflect.DeepEqual and the reflect package themselves (trusted); which concrete errors users pass")
 }
